@@ -350,6 +350,9 @@ func checkC07(c *Ctx) {
 						break
 					}
 					if o, ok := c.condRel(t.Items[j]).Orient(cbT+"requestCount", cbT+"maxRequests"); ok && o.Pred == "" && o.Hi == -1 {
+						if live, why := c.loadedUnder(t.Items[j], cbT+"requestCount", cbT+"mutex", 'W'); !live {
+							return "the admitting test uses a stale requestCount: " + why
+						}
 						admitted = true
 					}
 				}
@@ -534,6 +537,24 @@ func checkC08(c *Ctx) {
 
 	// (3),(4): the admission relation (closed never rejects, open+elapsed admits) — shared with C07
 	c.admissionRule(k, p.Fn("internal/circuitbreaker", "CircuitBreaker", "beforeRequest"))
+	exec := p.Fn("internal/circuitbreaker", "CircuitBreaker", "Execute")
+	c.traceRule("trial-always-reported", "circuitbreaker.(*CircuitBreaker).Execute", exec, c.cbSpec(true),
+		"every admitted request reports its outcome to afterRequest exactly once, so a spent half-open trial always leads to a transition",
+		func(t *Trace) string {
+			if !t.Has("call-fn") {
+				return ""
+			}
+			n := 0
+			for _, it := range t.Items {
+				if strings.HasPrefix(it.Label, "afterRequest(") {
+					n++
+				}
+			}
+			if n != 1 {
+				return fmt.Sprintf("an admitted request reports its outcome %d times: an unreported half-open trial leaves the breaker half-open with its budget spent for ever", n)
+			}
+			return ""
+		})
 	after := p.Fn("internal/circuitbreaker", "CircuitBreaker", "afterRequest")
 	c.traceRule("open-sets-next-attempt", "circuitbreaker.(*CircuitBreaker).afterRequest", after, c.cbSpec(false),
 		"each transition to Open stores nextAttempt = now + timeout",
@@ -705,7 +726,15 @@ func (c *Ctx) admissionRule(k cbConsts, before *ssa.Function) {
 				chk := false
 				for j := pre.secStart; j < i; j++ {
 					if o, ok := c.condRel(t.Items[j]).Orient(cbT+"nextAttempt", "now"); ok && o.Lo == negInf && o.Hi == -1 {
+						if live, why := c.loadedUnder(t.Items[j], cbT+"nextAttempt", cbT+"mutex", 'W'); !live {
+							return "open→half-open re-check uses a stale nextAttempt: " + why
+						}
 						chk = true
+					}
+					if o, ok := c.condRel(t.Items[j]).Orient(cbT+"state", ""); ok && o.Y == "" && !o.Neq && o.Lo == k.open && o.Hi == k.open {
+						if live, why := c.loadedUnder(t.Items[j], cbT+"state", cbT+"mutex", 'W'); !live {
+							return "open→half-open re-check uses a stale state: " + why
+						}
 					}
 				}
 				if !chk {
@@ -752,6 +781,13 @@ func (c *Ctx) admissionRule(k cbConsts, before *ssa.Function) {
 						}
 						if c.cbScan(t, i).lock != "lock:W" {
 							return "failure window reset outside the write lock"
+						}
+						for j := i - 1; j >= 0 && !strings.HasPrefix(t.Items[j].Label, "lock:"); j-- {
+							if _, _, ok2 := c.findRel(t, "add(fld:"+cbT+"lastFailureTime,fld:"+cbT+"interval)", "now", j, j+1); ok2 {
+								if live, why := c.loadedUnder(t.Items[j], cbT+"lastFailureTime", cbT+"mutex", 'W'); !live {
+									return "failure window reset re-checks a stale lastFailureTime: " + why
+								}
+							}
 						}
 					} else if strings.HasPrefix(it.Label, "store ") {
 						return "closed admission modifies " + it.Label
